@@ -48,8 +48,14 @@ OPEN_TITLES = {k: v[2] for k, v in PINNED.items()}
 FIXED_COMMITS = {"K-catch-pop": "790993c", "K-stale-error-ip-a": "4f459d5", "K-stale-error-ip-b": "4f459d5"}
 
 # ---- other properties: (property, id, status, commit, title, scenario dict)
-from sim.props import c09, c15, c12
+from sim.props import c09, c15, c12, c01
 OTHER = [
+ ("C01", "K-upvalue-dropped-fiber", "fixed", "e281e02",
+  "a closure over a variable living on the value stack of a suspended fiber kept only a raw pointer into that stack: once the fiber object was dropped and collected the closure read/wrote reclaimed memory",
+  {"ir": {"gadgets": [["chain", "open_capture_on_dropped_fiber", [], "vec", 1000, 3]]}, "gc_tape": "ff" * 64, "gc_rate": 2}),
+ ("C01", "K-superclass-untraced", "fixed", "ad98765",
+  "the collector did not trace a class's superclass link: a class alive only as the declared superclass of a live class was reclaimed and Object.derives() walked freed memory",
+  {"ir": {"gadgets": [["op", 18, 1000, "global"]]}, "gc_tape": "ff" * 64, "gc_rate": 2}),
  ("C12", "K-map-keys-untraced", "fixed", "9f27374",
   "the collector did not trace HashMap keys: a tuple (or range) alive only as a map key was reclaimed while the map still held it",
   {"ir": {"nmaps": 1, "ops": [["insert", 0, "t_a1", ["vn", 1]], ["churn", 2], ["keys", 0], ["get", 0, "t_a1_c"]]}, "gc_tape": "ff" * 64}),
@@ -88,7 +94,7 @@ def main():
         else:
             entries.append({"id": name, "property": "C08", "status": "fixed", "commit": FIXED_COMMITS[name], "title": title,
                             "scenario": "findings/C08/%s.json" % name, "record": "fixed: property=C08 %s %s" % (FIXED_COMMITS[name], title)})
-    props = {"C09": c09.PROP, "C15": c15.PROP, "C12": c12.PROP}
+    props = {"C09": c09.PROP, "C15": c15.PROP, "C12": c12.PROP, "C01": c01.PROP}
     for pid, name, status, commit, title, sc in OTHER:
         d = os.path.join(build.ROOT, "findings", pid)
         os.makedirs(d, exist_ok=True)
